@@ -83,6 +83,16 @@ claim('C12',
       'Trusted: the declared conventions, read from the module\'s own comments; size symbols din != dout.',
       'abstract interpretation of array plumbing over axis-role labels with symbolic sizes; exact polynomial arithmetic for Kraus weights',
       'DESIGN.md 4 (X, B), 5 C12')
+claim('C13',
+      'Decides finiteness and the "every parameter point is a decomposition" structure: the closed forms have no unguarded 0*log 0 '
+      '(F1) and clamp sqrt(1-C^2) for a concurrence that rounds above 1 (F2); in the EOF, concurrence and linear-entropy models the '
+      'mixing matrix is a Stiefel(ensemble, rank) point built in __init__ (never swapped), sqrt(rho) takes the top-rank eigenpairs, '
+      'forward contracts it once plain and once conjugated, and the literal index lists pair ket-rank with X, bra-rank with X*, keep '
+      'the ensemble index and trace exactly one subsystem (V1). Ranges, LU invariance, monotone relations and loss >= closed form are '
+      'value-level and NOT decided; for the GME model only (a),(b) of V1 are decided (computed index lists).',
+      'Trusted: Stiefel point is an isometry (C01 territory).',
+      'ast typing of literal contraction index lists + guard reaching-definitions with interval analysis',
+      'DESIGN.md 4 (V1, F), 5 C13')
 claim('C15',
       'Decides ONE clause: "a batch is converted element-wise whatever mixture of generic and degenerate rotations it contains" - '
       'by abstract interpretation of the Euler-angle extraction over the index-space lattice {Full, Masked(m), Scalar, Unknown}: '
@@ -120,6 +130,18 @@ claim('C04',
       'Trusted: the adjoint rule templates; torch.autograd.Function API contract.',
       'ast sibling/twin comparison and operator-form classification (id / T / H) at resolved call sites',
       'DESIGN.md 4 (A, D), 5 C04')
+claim('C06',
+      'Decides three structural necessary conditions: the PPT routines apply a genuine partial transpose for symbolic dims - the '
+      'literal permutation is a non-identity involution of ket<->bra swaps of one subsystem (P1); boundary intervals are derived '
+      'and intersected monotonically - lower end from the largest, upper from the smallest shifted eigenvalue, lower ends combined '
+      'with maximum, upper with minimum, callers take the ray-direction end (I1); the SDP/LP builders of the k-extension, PPT '
+      'numerical range and CHA programmes keep complete constraint sets that only grow - PSD of every block, normalisation, the '
+      'partial-transpose constraint under use_ppt, linking equalities, lambda>=0 and sum(lambda)=1 (C1: dropping one enlarges the '
+      'feasible set and breaks beta_k-ext+PPT <= beta_PPT / beta_CHA <= beta_k-ext). Threshold exactness, interpolation distance '
+      'and the numerical beta inequalities are eigenvalue / solver quantities and NOT decided.',
+      'Narrow structural claim. Trusted: ascending order of eigvalsh; cvxpy operator semantics (>> is PSD).',
+      'ast permutation algebra on literal transposes; tag propagation (lower/upper) through max/min; constraint-kind inventory of list-building statements',
+      'DESIGN.md 4 (P1, C1), 5 C06')
 claim('C07',
       'Decides the history clause: every function that mutates the recorded gate list - including the 8 factory-made recorders - '
       'resets the memoised tableau on every path (H1, flow-sensitive typestate over discovered memo/source fields), so a query '
@@ -143,8 +165,6 @@ claim('C19',
       'abstract interpretation of literal straight-line gate programs over the Pauli tableau domain; finite exhaustive enumeration of errors below d',
       'DESIGN.md 4 (Q), 5 C19')
 
-for _pid in ['C06', 'C13']:
-    na(_pid, 'static rules for this property are designed (DESIGN.md 5) but not yet implemented in this revision; not claimed until they are')
 na('C09', 'bijectivity/counting of the Sp(2n,F2) indexing and the transvection lemma are properties of runtime bit vectors under data-dependent branching; no code-shape clause of substance')
 na('C14', 'group axioms of computed Cayley tables, partition and tableau counts are value-level combinatorics; only a 4x4 literal is visible statically')
 na('C17', 'partial-trace index lists are computed at run time and the Dicke reduction is occupation-number arithmetic; no structural clause that is a necessary condition of the property')
